@@ -4,6 +4,7 @@
 // enumerates every hook completion history (finished / still running at each poll) and every
 // environment event at each tick of the wait (victim removed, removed+re-created, fallback
 // candidate removed), within a deviation bound.  Oracle: monitor over the interleaved log.
+#include <cmath>
 #include <set>
 
 #include "common/explore.h"
@@ -218,6 +219,23 @@ struct C07 : vr::Driver {
           timeAt[cl.tick] = cl.t;
           retAt[cl.tick] = cl.ret;
         }
+      // The window is counted from when the action chain FIRED (statement), so the deadline is recomputed here from the tick
+      // at which each chain started (first run of the kill action after the previous chain ended) + prekill_hook_timeout,
+      // not taken from the ActionContext the plugin is shown; the shown one must agree with it on every tick.
+      {
+        double chainStart = -1;
+        int prevRet = -1;
+        for (auto& kv : timeAt) {
+          int t = kv.first;
+          if (prevRet != 2) chainStart = kv.second;  // previous run of K did not suspend => a new chain fired on this tick
+          double D = chainStart + c.timeout;
+          if (std::fabs(deadlineAt[t] - D) > 1e-6)
+            return fail("window-not-counted-from-chain-start", "at tick " + std::to_string(t) + " the kill action is shown a prekill deadline of " + std::to_string(deadlineAt[t]) +
+                                                                   " but its chain fired at t=" + std::to_string(chainStart) + " with prekill_hook_timeout=" + std::to_string(c.timeout));
+          deadlineAt[t] = D;
+          prevRet = retAt[t];
+        }
+      }
       // 3. at most one live invocation
       int live = 0;
       for (auto& h : o.hooks) {
